@@ -620,6 +620,11 @@ impl<'w, 'a, 'b, 'c> World<'w, 'a, 'b, 'c> {
 				self.nodes[num(1) % nn].node.process_pending_htlc_forwards();
 				true
 			},
+			"decode" => {
+				// only the first half of process_pending_htlc_forwards: the onions are decoded and the HTLCs wait in
+				// forward_htlcs / as pending receives (what a ChannelManager written at that moment contains)
+				self.nodes[num(1) % nn].node.test_process_pending_update_add_htlcs()
+			},
 			"fwdany" => {
 				let ns: Vec<usize> = (0..nn).filter(|n| self.nodes[*n].node.needs_pending_htlc_processing()).collect();
 				if ns.is_empty() {
@@ -1113,6 +1118,8 @@ fn run_trial(line: &str) {
 		carry.queues.remove(&(p, x));
 		carry.queues.remove(&(x, p));
 	}
+	// a restarted application handles its events again
+	carry.evhold[x] = false;
 	// the application never saw PaymentClaimed for these: it calls claim_funds again after the restart
 	for h in carry.claiming[x].clone() {
 		if !carry.claimables[x].contains(&h) {
